@@ -24,6 +24,8 @@ deriving Repr
 inductive Step
   | connect (k : Nat) (src : Addr)
   | request (k : Nat)
+  /-- `cnt` requests written back to back on connection `k` before any reply is read -/
+  | pipeline (k : Nat) (cnt : Nat)
   | garbage (k : Nat)
   | close (k : Nat)
   | probe (k : Nat)
@@ -35,6 +37,8 @@ deriving Repr
 inductive Obs
   | conn (k : Nat) (r : String)
   | req (k : Nat) (r : String)
+  /-- `answered` = number of requests of a pipelined step that were answered, in order -/
+  | pipe (k : Nat) (r : String) (answered : Nat)
   | garb (k : Nat) (r : String)
   | prob (k : Nat) (r : String)
   | cmd (name : String) (r : String)
@@ -75,6 +79,13 @@ def step (n : Net) : Step → Net × List Obs
     match lookup n k with
     | none => (n, [.req k "noconn"])
     | some _ => (n, [.req k (if isOpen n k && !n.tls then "ok.982" else "closed")])
+  | .pipeline k cnt =>
+    -- a session answers every request it has read, one reply per request, in order; how fast
+    -- the peer reads the replies is immaterial (the transport is a reliable byte stream and
+    -- `PhysLayer::write` writes the whole frame)
+    match lookup n k with
+    | none => (n, [.pipe k "noconn" 0])
+    | some _ => (n, [if isOpen n k && !n.tls then .pipe k "ok" cnt else .pipe k "closed" 0])
   | .garbage k =>
     match lookup n k with
     | none => (n, [.garb k "noconn"])
@@ -104,5 +115,16 @@ def run : Net → List Step → Net × List Obs
     let (n', o) := step n s
     let (n'', os) := run n' rest
     (n'', o ++ os)
+
+/-- `run` with an accumulator (constant stack: scripts with 10^5 steps) -/
+def runAux : Net → List Step → List Obs → Net × List Obs
+  | n, [], acc => (n, acc.reverse)
+  | n, s :: rest, acc => runAux (step n s).1 rest ((step n s).2.reverse ++ acc)
+
+def runTR (n : Net) (steps : List Step) : Net × List Obs := runAux n steps []
+
+/-- churn: `cnt` peers, one after the other, connect from `src` (label `l`) and leave at once -/
+def churnSteps (l : Nat) (src : Addr) (cnt : Nat) : List Step :=
+  (List.replicate cnt [Step.connect l src, Step.close l]).flatten
 
 end Rodbus.ServerNet
